@@ -5,3 +5,4 @@ import ADModel.Criteria
 import ADModel.Prune
 import ADModel.Newick
 import ADModel.Obs
+import ADModel.PruneOrig
